@@ -42,7 +42,8 @@ HAND = ["i0 := 1;", "b0;", "[ start ] b0;", "( start, end ] b0;", "[ start, end 
         "[ start ] when (not (i0 == 1)) { b0 := true; };", "when (not (b0 and b0)) { i0 :increase 1; };",
         "[ end ] when (not b0) { b0 := true; };", "when not (b0 or b0) { b0 := false; };",
         "[ start ] forall (T0 x){ when (not (b1(x) and b0)) { b1(x) := false; }; };", "( start, end ) (not (i0 < 2));",
-        "when (start) b0 { b0 := true; };"]
+        "when (start) b0 { b0 := true; };", "[ start ] when true { i0 := 1; };",
+        "[ end ] forall (T0 x){ when true { b1(x) := true; }; };", "when false { i0 := 1; };"]
 
 
 def tokenize(text, sid):
@@ -163,6 +164,8 @@ def run(ctx):
                 if rng.random() < 0.25 and not cond.is_not():
                     cond = em.Not(cond)
                     dist["when_not"] += 1
+                if rng.random() < 0.08:
+                    cond = em.Not(em.FALSE())      # stored condition not TRUE, printed condition TRUE: "when true {"
                 if cond.is_bool_constant():
                     cond = em.TRUE()
                 else:
@@ -317,8 +320,11 @@ def run(ctx):
             if st[0] == "cond":
                 return "(%s %s %s)" % ("SCond" if conv else "PCond", g_interval(st[1]),
                                        ser_expr(simp.simplify(st[2]) if conv else st[2], names))
-            return "(%s %s %s)" % ("SEff" if conv else "PEff", g_timing(st[1]),
-                                   g_effect(st[2], names, simp.simplify if conv else (lambda x: x)))
+            if conv:
+                # Effect.is_conditional() looks at the STORED condition; the converter prints the SIMPLIFIED one
+                forced = st[2].is_conditional() and simp.simplify(st[2].condition).is_true()
+                return "(%s %s %s)" % ("SEffW" if forced else "SEff", g_timing(st[1]), g_effect(st[2], names, simp.simplify))
+            return "(PEff %s %s)" % (g_timing(st[1]), g_effect(st[2], names))
         toks = tokenize(text, sid)
         if toks is None:
             raise ValueError("untokenisable statement %r" % text)
